@@ -158,7 +158,7 @@ def build_and_check(ob: Ob, sc: Scratch, want_trace=False) -> Result:
         gb = b_gb
     checks = DEFAULT_CHECKS if ob.checks is None else ob.checks
     cb = ['cbmc', gb] + checks + ob.flags + SOLVER_FLAGS[ob.solver] + ['--drop-unused-functions', '--json-ui', '--verbosity', '6']
-    if ob.dfcc and not any(f == '--object-bits' for f in ob.flags):
+    if not any(f == '--object-bits' for f in ob.flags):
         cb += ['--object-bits', '12']
     if want_trace:
         cb += ['--trace']
@@ -205,7 +205,8 @@ def build_and_check(ob: Ob, sc: Scratch, want_trace=False) -> Result:
         names.append(nm + ' ' + desc)
         if desc.startswith('CANARY'):
             cfile = os.path.basename(str((r.get('sourceLocation') or {}).get('file', '')))
-            required = cfile == os.path.basename(ob.harness) or any(re.search(c, desc) for c in ob.canaries)
+            cfunc = str((r.get('sourceLocation') or {}).get('function', ''))
+            required = (cfile == os.path.basename(ob.harness) and cfunc == ob.entry) or any(re.search(c, desc) for c in ob.canaries)
             if st == 'FAILURE':
                 if required:
                     canary_ok += 1
